@@ -51,7 +51,7 @@ type PosOracle func(seq int) (off int, ok bool)
 
 // checkC11 judges one faulted run against its fault-free twin. faults is the
 // injected set; R0 the fault-free run with the same options.
-func checkC11(p *Parser, R0, r *CallResult, faults []kernel.Fault, recoverOn bool, pos PosOracle, lineCol map[int][2]int) (string, string, map[string]any) {
+func checkC11(p *Parser, R0, r *CallResult, faults []kernel.Fault, recoverOn bool, pos PosOracle, lineCol map[int][2]int, kept map[int]bool) (string, string, map[string]any) {
 	g := p.Grammar()
 	if r.Aborted || r.Overflow {
 		return "", "", nil
@@ -69,10 +69,15 @@ func checkC11(p *Parser, R0, r *CallResult, faults []kernel.Fault, recoverOn boo
 		if in.Seq >= len(r.Events) {
 			continue
 		}
-		fs = append(fs, fired{&r.Events[in.Seq], in.Kind, i})
 		if isPanicKind(in.Kind) && firstPanic < 0 {
 			firstPanic = in.Seq
 		}
+		if kept != nil && !isPanicKind(in.Kind) && !kept[in.Seq] {
+			// recorded inside a growth attempt of a left-recursive rule that was
+			// abandoned: such errors are not retained
+			continue
+		}
+		fs = append(fs, fired{&r.Events[in.Seq], in.Kind, i})
 	}
 	// (a) nothing else changes
 	h0, h := coreHistory(R0), coreHistory(r)
@@ -122,6 +127,16 @@ func checkC11(p *Parser, R0, r *CallResult, faults []kernel.Fault, recoverOn boo
 	}
 	if r.Escaped != "" {
 		return "panic-escaped", "a panic reached the caller of Parse although Recover is enabled: " + r.Escaped, nil
+	}
+	if len(exps) == 0 && kept != nil && len(r.Injected) > 0 {
+		// every injected error was made in an abandoned growth attempt
+		if r.Value != R0.Value {
+			return "value-changed", fmt.Sprintf("errors returned by code blocks changed the value: %s vs %s", r.Value, R0.Value), nil
+		}
+		if strings.Join(errMsgs(r), "\n") != strings.Join(errMsgs(R0), "\n") {
+			return "error-list", fmt.Sprintf("errors made only in abandoned growth attempts must leave the result as in the fault-free run: %q vs %q", errMsgs(r), errMsgs(R0)), nil
+		}
+		return "", "", nil
 	}
 	if len(exps) == 0 {
 		// no fault fired: identical to the twin
@@ -276,6 +291,15 @@ func campaignC11(p *Parser, req *Request, resp *Response) {
 		pos = m
 		resp.stat("model_positions_available", 1)
 	}
+	leftRec := contains(p.Flags, "-support-left-recursion") && p.Grammar().LeftRecursive()
+	if leftRec {
+		if pos == nil {
+			// which errors survive seed growing is only known through the model
+			resp.stat("left_recursive_case_without_model", 1)
+			return
+		}
+		resp.stat("left_recursive_cases", 1)
+	}
 	var sets [][]kernel.Fault
 	if len(req.FaultSets) > 0 {
 		sets = req.FaultSets
@@ -332,7 +356,22 @@ func campaignC11(p *Parser, req *Request, resp *Response) {
 		if len(r.Injected) >= 2 {
 			resp.stat("runs_with_2plus_faults_fired", 1)
 		}
-		class, msg, detail := checkC11(p, R0, r, set, recoverOn, pos, lineCol)
+		var kept map[int]bool
+		if leftRec {
+			mc := c
+			mm := RunModel(p.Grammar(), &mc, p.withStateStore())
+			if mm.Aborted != "" {
+				continue
+			}
+			kept = map[int]bool{}
+			for _, seq := range mm.errLog {
+				kept[seq] = true
+			}
+			if len(mm.errLog) < len(r.Injected) {
+				resp.stat("errors_dropped_with_abandoned_growth_attempt", len(r.Injected)-len(mm.errLog))
+			}
+		}
+		class, msg, detail := checkC11(p, R0, r, set, recoverOn, pos, lineCol, kept)
 		if class != "" {
 			resp.Violations = append(resp.Violations, Violation{Class: class, Msg: msg, Detail: detail, FaultSets: [][]kernel.Fault{set},
 				Attrs: map[string]string{"class": class, "recover": fmt.Sprint(recoverOn), "memoize": fmt.Sprint(call.Opts.Memoize), "optimized": fmt.Sprint(!p.Has["Memoize"])}})
